@@ -483,13 +483,84 @@ func runSeqStream(o Opts, r *Rng, extra int) {
 	}
 }
 
+// ---------------------------------------------------------------- stream O: the caller's option list
+const hdrO = "From Coq Require Import ZArith List Bool Floats.\nFrom ADV Require Import C12.CorrO.\nImport ListNotations.\n"
+
+func optRaw(c entry.OptCase) map[string]interface{} {
+	js, _ := json.Marshal(c)
+	return map[string]interface{}{"stream": "O", "entry": c.Entry, "opts": c.Opts, "changed": c.Changed, "spec": c.Spec, "full": json.RawMessage(js)}
+}
+
+func runOptStream(o Opts, r *Rng, n int) {
+	w := NewCaseWriter(o.Out, "ocases", hdrO, "omism", 60)
+	w.Type = "ocase"
+	w.Rule = "O: an algorithm entry point called with its options in a caller-held slice with 1-3 spare cells (sentinels) behind len, once more with a literal list, and (plain-value options) a second time with the same slice; non-trivial iff the call returned without panic and the list is non-empty"
+	// the committed corpus (witnesses of the mutation trials: the inputs on which seeded in-place filters / appends /
+	// stores showed) runs first
+	var cases []entry.OptCase
+	ncorpus := 0
+	if b, err := os.ReadFile(filepath.Join("corpus", "C12", "opt_corpus.json")); err == nil {
+		var cs []struct {
+			Spec json.RawMessage `json:"spec"`
+		}
+		if json.Unmarshal(b, &cs) == nil {
+			for _, x := range cs {
+				if c, err := entry.ReplayOpts(x.Spec); err == nil {
+					cases = append(cases, c)
+					ncorpus++
+				}
+			}
+		}
+	}
+	w.Extra["corpus_option_lists_run"] = ncorpus
+	cases = append(cases, entry.GenerateOpts(r, n)...)
+	w.Extra["option_list_entry_points"] = entry.OptEntryNames()
+	npure := 0
+	for _, c := range cases {
+		w.Count("O:" + c.Entry)
+		w.Count("O:outcome:" + c.Outcomes[0])
+		w.Count(fmt.Sprintf("O:spare=%d", c.Spare))
+		if c.Pure {
+			npure++
+			w.Count("O:second call with the same slice")
+		}
+		w.Add(c.Coq(), optRaw(c), fmt.Sprintf("%s|%s|%d", c.Entry, c.Opts, c.Spare), c.Outcomes[0] != "panic" && c.Len > 0)
+	}
+	if err := w.Flush(); err != nil {
+		Die("flush: %v", err)
+	}
+}
+
+func optFinding(c entry.OptCase) Finding {
+	// the failure class (dedupe key of the hunt): which parts changed; the details are in case.changed
+	kinds := []string{}
+	for _, k := range []string{"(element)", "(capacity window behind len)", "after the second call", "result with the held slice", "result of the second call"} {
+		for _, ch := range c.Changed {
+			if strings.Contains(ch, k) {
+				kinds = append(kinds, strings.Trim(k, "()"))
+				break
+			}
+		}
+	}
+	first := ""
+	if len(c.Changed) > 0 {
+		first = c.Changed[0]
+	}
+	return Finding{"O", c.Entry, fmt.Sprintf("the caller's option list is not left as it was [%s], e.g. %s (options %s, len %d + %d spare cells)",
+		strings.Join(kinds, "; "), first, c.Opts, c.Len, c.Spare), optRaw(c), 0}
+}
+
 // ---------------------------------------------------------------- hunt driver
 func hunt(o Opts) int {
 	rng := NewRng(o.Seed*7919 + 13)
 	var finds []Finding
 	seen := map[string]bool{}
 	add := func(f Finding) {
-		k := f.Stream + "|" + f.Site + "|" + stripDigits(f.Failure)
+		fail := f.Failure
+		if i := strings.Index(fail, "]"); f.Stream == "O" && i > 0 {
+			fail = fail[:i] // failure class only: one finding per entry point and kind of change
+		}
+		k := f.Stream + "|" + f.Site + "|" + stripDigits(fail)
 		if !seen[k] {
 			seen[k] = true
 			finds = append(finds, f)
@@ -508,6 +579,16 @@ func hunt(o Opts) int {
 				Stream string `json:"stream"`
 			}
 			json.Unmarshal(raw, &head)
+			if head.Stream == "O" {
+				var c struct {
+					Spec json.RawMessage `json:"spec"`
+				}
+				json.Unmarshal(raw, &c)
+				if oc, err := entry.ReplayOpts(c.Spec); err == nil && oc.Bad() {
+					add(optFinding(entry.ShrinkOpts(oc)))
+				}
+				continue
+			}
 			if f := replayCase(head.Stream, raw, o.Out); f != nil {
 				add(*f)
 			}
@@ -579,6 +660,11 @@ func hunt(o Opts) int {
 		if c.Bad() {
 			sc := entry.ShrinkSeq(c)
 			add(seqFinding(sc))
+		}
+	}
+	for _, c := range entry.GenerateOpts(rng.Split(), o.N*4+2*len(entry.OptEntryNames())) {
+		if c.Bad() {
+			add(optFinding(entry.ShrinkOpts(c)))
 		}
 	}
 	writeJSON(filepath.Join(o.Out, "hunt.json"), map[string]interface{}{"found": len(finds) > 0, "findings": finds})
@@ -731,6 +817,22 @@ func replayCase(stream string, raw json.RawMessage, out string) *Finding {
 		}
 	case "A":
 		return appendCapacityProbe()
+	case "O":
+		var c struct {
+			Spec json.RawMessage `json:"spec"`
+		}
+		json.Unmarshal(raw, &c)
+		oc, err := entry.ReplayOpts(c.Spec)
+		if err == nil {
+			w := NewCaseWriter(out, "replay_o", hdrO, "omism", 10)
+			w.Type = "ocase"
+			w.Add(oc.Coq(), nil, "replay", true)
+			w.Flush()
+			if oc.Bad() {
+				f := optFinding(oc)
+				return &f
+			}
+		}
 	}
 	return nil
 }
